@@ -1,7 +1,7 @@
 SPECIFICATION Spec
 CONSTANTS
   MaxGrow = 1
-  SeedIds <- CoreSeeds
+  SeedIds <- GrowSeeds
   GrowT <- AllT
   GrowNames <- NamesAP
   DeclNames <- DNamesQ
